@@ -352,8 +352,8 @@ theorem signals_mSet (args : List Bytes) (b : Body) (h : Handler.mSet args = .ex
   obtain ⟨_, rfl⟩ := ite_exec h
   exact signals_of_frame fun st now _ hp => frame_mSet_go now _ st hp
 
-theorem frame_mGet_go (now : Int) : ∀ (ks : List Bytes) (s : MState) (acc : List Tok),
-    Frame [] s (Handler.mGet.go now ks s acc).store
+theorem frame_mGet_go (args : List Bytes) (now : Int) : ∀ (ks : List Bytes) (s : MState) (acc : List Tok),
+    Frame [] s (Handler.mGet.go args now ks s acc).store
   | [], s, acc => by unfold Handler.mGet.go; exact Frame.refl _ _
   | k :: rest, s, acc => by
     unfold Handler.mGet.go
@@ -363,24 +363,30 @@ theorem frame_mGet_go (now : Int) : ∀ (ks : List Bytes) (s : MState) (acc : Li
     dsimp only at h1 ⊢
     split
     · next heq => cases heq; exact h1
-    · next heq => cases heq; exact h1.trans0 ((frame_commit _).trans0 (frame_mGet_go now rest _ _))
-    · next heq => cases heq; exact h1.trans0 ((frame_commit _).trans0 (frame_mGet_go now rest _ _))
+    · next heq => cases heq; exact h1.trans0 ((frame_commit _).trans0 (frame_mGet_go args now rest _ _))
+    · next heq => cases heq; exact h1.trans0 ((frame_commit _).trans0 (frame_mGet_go args now rest _ _))
 
 theorem signals_mGet (args : List Bytes) (b : Body) (h : Handler.mGet args = .exec b) : SignalsChanges b := by
   unfold Handler.mGet at h
   obtain ⟨_, rfl⟩ := ite_exec h
-  exact signals_of_frame fun st now _ hp => frame_mGet_go now _ st _
+  exact signals_of_frame fun st now _ hp => frame_mGet_go _ now _ st _
 
-/-- every closure SCAN can produce: the scan, then the rendering -/
-theorem signals_scanBody (cursor : Int) (pat : Bytes) (count : Int) (typ : Nat) :
+/-
+  FULL STATEMENT (not proved): `signals_scan (args) (b) (h : Handler.scan args = .exec b) : SignalsChanges b`.
+  Region left open: SCAN with a TYPE option (`opt args "TYPE" > 0`): the scan then loads cold records of
+  unknown type, see the comment at `frame_scan` (C09Table1.lean).  Not known to be false.
+-/
+/-- every closure SCAN without TYPE filter can produce: the scan, then the rendering -/
+theorem signals_scanBody (cursor : Int) (pat : Bytes) (count : Int) :
     SignalsChanges fun s now _ =>
-      Handler.call (Api.scan s now cursor pat count typ) fun s o =>
+      Handler.call (Api.scan s now cursor pat count 0) fun s o =>
         match o with
         | .many [.int next, .slist ks] => Handler.done s ([.arr 2, .bulk (formatInt next)] ++ Handler.bulkList ks)
         | _ => Handler.done s [] :=
-  signals_of_frame fun st now _ hp => frame_call _ _ (fun _ o => by split <;> rfl) (frame_scan st now _ _ _ _)
+  signals_of_frame fun st now _ hp => frame_call _ _ (fun _ o => by split <;> rfl) (frame_scan st now _ _ _)
 
-theorem signals_scan (args : List Bytes) (b : Body) (h : Handler.scan args = .exec b) : SignalsChanges b := by
+theorem signals_scan_partial (args : List Bytes) (b : Body) (h : Handler.scan args = .exec b)
+    (hreg : ¬ (Resp.opt args "TYPE" > 0)) : SignalsChanges b := by
   unfold Handler.scan at h
   split at h
   · cases h
@@ -397,16 +403,26 @@ theorem signals_scan (args : List Bytes) (b : Body) (h : Handler.scan args = .ex
           · split at h
             · cases h
             · cases h
-              exact signals_scanBody _ _ _ _
+              first
+                | exact signals_scanBody _ _ _
+                | (rw [if_neg hreg]; exact signals_scanBody _ _ _)
+                | (simp only [if_neg hreg]; exact signals_scanBody _ _ _)
 
 /-! ## the table -/
 
-/-- `Handler.table1` without the command for which `SignalsChanges` is false (`signals_incrDecrBy_finding`) -/
+/-- SCAN with a TYPE option: the region for which `SignalsChanges` is not proved -/
+def scanTyped (name : String) (args : List Bytes) : Prop := name = "SCAN" ∧ Resp.opt args "TYPE" > 0
+
+instance (name : String) (args : List Bytes) : Decidable (scanTyped name args) := by unfold scanTyped; exact inferInstance
+
+/-- `Handler.table1` without the command for which `SignalsChanges` is false (DECRBY: `signals_incrDecrBy_finding`)
+    and without the region for which it is not proved (SCAN … TYPE t) -/
 def table1Safe : Table := fun name args =>
-  if name ∈ ["DECRBY"] then none else Handler.table1 name args
+  if name ∈ ["DECRBY"] then none else if scanTyped name args then none else Handler.table1 name args
 
 theorem table1_signals_partial (name : String) (args : List Bytes) (b : Body)
-    (h : Handler.table1 name args = some (.exec b)) (hn : name ∉ ["DECRBY"]) : SignalsChanges b := by
+    (h : Handler.table1 name args = some (.exec b)) (hn : name ∉ ["DECRBY"]) (hsc : ¬ scanTyped name args) :
+    SignalsChanges b := by
   unfold Handler.table1 at h
   split at h
   all_goals first
@@ -432,7 +448,7 @@ theorem table1_signals_partial (name : String) (args : List Bytes) (b : Body)
   · exact signals_rename _ _ h
   · exact signals_renameNx _ _ h
   · exact signals_typ _ _ h
-  · exact signals_scan _ _ h
+  · exact signals_scan_partial _ _ h (fun hp => hsc ⟨rfl, hp⟩)
   · exact signals_setString _ _ h
   · exact signals_mSet _ _ h
   · exact signals_appendString _ _ h
@@ -457,19 +473,22 @@ theorem table1Safe_signals : TableSignals table1Safe := by
   unfold table1Safe at h
   split at h
   · cases h
-  · next hn => exact table1_signals_partial name args b h hn
+  · next hn =>
+    split at h
+    · cases h
+    · next hsc => exact table1_signals_partial name args b h hn hsc
 
 /-- finer than `table1Safe`: DECRBY too, outside the finding region -/
 theorem table1_signals_region (name : String) (args : List Bytes) (b : Body)
-    (h : Handler.table1 name args = some (.exec b)) (hreg : name = "DECRBY" → decrByMin true args = false) :
-    SignalsChanges b := by
+    (h : Handler.table1 name args = some (.exec b)) (hreg : name = "DECRBY" → decrByMin true args = false)
+    (hsc : ¬ scanTyped name args) : SignalsChanges b := by
   by_cases hn : name = "DECRBY"
   · subst hn
     have h' : Handler.incrDecrBy true args = .exec b := by
       have : Handler.table1 "DECRBY" args = some (Handler.incrDecrBy true args) := rfl
       rw [this] at h; injection h
     exact signals_incrDecrBy_partial true args b h' (hreg rfl)
-  · exact table1_signals_partial name args b h (by simpa using hn)
+  · exact table1_signals_partial name args b h (by simpa using hn) hsc
 
 /-- the full table statement is false -/
 theorem table1_signals_false : ¬ TableSignals Handler.table1 := by
